@@ -30,7 +30,18 @@ type Case struct {
 	Variant  int             `json:"variant"`  // rule-specific choice
 	Opts     int             `json:"opts"`     // bit set of validation options
 	Examples bool            `json:"examples"` // the base document carries defaults/examples (accept-direction not asserted for wholesale schema replacements)
+	// PreCompiler: every document is first validated once with a regular-expression compiler that accepts
+	// every pattern (SetRegexCompiler is an option of that call only); the judged calls follow
+	PreCompiler bool `json:"pre_compiler,omitempty"`
 }
+
+type anyMatcher struct{}
+
+func (anyMatcher) MatchString(string) bool { return true }
+
+func lenientCompiler(string) (openapi3.RegexMatcher, error) { return anyMatcher{}, nil }
+
+var preCompiler bool
 
 func TestMain(m *testing.M) { h.Main(m, "C04") }
 
@@ -649,6 +660,9 @@ func locClass(n metamodel.Node) (string, bool) {
 // validate validates twice: whatever the first pass (of this or of an earlier document) left behind
 // must not change the verdict of the second
 func validate(doc *openapi3.T, opts int) (err error) {
+	if preCompiler {
+		_ = doc.Validate(context.Background(), append(vopts(opts), openapi3.SetRegexCompiler(lenientCompiler))...)
+	}
 	first := doc.Validate(context.Background(), vopts(opts)...)
 	second := doc.Validate(context.Background(), vopts(opts)...)
 	if (first == nil) != (second == nil) {
@@ -658,6 +672,11 @@ func validate(doc *openapi3.T, opts int) (err error) {
 }
 
 func check(c Case) (o h.Outcome) {
+	preCompiler = c.PreCompiler
+	defer func() { preCompiler = false }()
+	if c.PreCompiler {
+		o.Class("prelude:lenient-regex-compiler")
+	}
 	var raw M
 	if err := json.Unmarshal(c.Doc, &raw); err != nil {
 		panic("harness: bad doc")
@@ -938,6 +957,7 @@ func gen(t *rapid.T) Case {
 		c.Variant = rapid.IntRange(0, 23).Draw(t, "variant")
 	}
 	c.Opts = rapid.IntRange(0, 63).Draw(t, "opts")
+	c.PreCompiler = rapid.IntRange(0, 3).Draw(t, "precompiler") == 0
 	return c
 }
 
@@ -993,6 +1013,9 @@ func enumerate(shard, nshards int, yield func(Case)) {
 			for v := 0; v < variants; v++ {
 				for _, op := range opts {
 					emit(Case{Doc: doc, Rule: r.name, Node: ni, Variant: v, Opts: op})
+					if r.name == "schema:bad-pattern" {
+						emit(Case{Doc: doc, Rule: r.name, Node: ni, Variant: v, Opts: op, PreCompiler: true})
+					}
 				}
 			}
 		}
